@@ -55,6 +55,7 @@ def Ev.inLoop : Ev → Bool
   | .gc _ _ => true
   | .it _ _ => true
   | .err _ => true
+  | .exec _ _ => true
   | _ => false
 
 /-- one event of the command loop, seen by the liveness oracle -/
@@ -110,6 +111,7 @@ theorem inLoop_step (s : JState) (e : Ev) (he : e.inLoop = true) :
   | force a t x ok => exact ⟨rfl, rfl, rfl, fun u => ⟨rfl, rfl, rfl, id, (by intro h; cases h), id⟩⟩
   | it v r => exact ⟨rfl, rfl, rfl, fun u => ⟨rfl, rfl, rfl, id, (by intro h; cases h), id⟩⟩
   | err v => exact ⟨rfl, rfl, rfl, fun u => ⟨rfl, rfl, rfl, id, (by intro h; cases h), id⟩⟩
+  | exec v r => exact ⟨rfl, rfl, rfl, fun u => ⟨rfl, rfl, rfl, id, (by intro h; cases h), id⟩⟩
   | _ => cases he
 
 /-- a list of events of the command loop -/
@@ -223,6 +225,7 @@ theorem cpl_inLoop (fs : FState) (js : JState) (e : Ev) (he : e.inLoop = true) (
   | force a t x ok => exact h
   | it v r => exact h
   | err v => exact h
+  | exec v r => exact h
   | _ => cases he
 
 theorem cpl_fold (l : List Ev) (hl : ∀ e ∈ l, Ev.inLoop e = true) (fs : FState) (js : JState) (h : Cpl fs js)
@@ -277,6 +280,7 @@ theorem runOps_inLoop (sc : Scripts) (f : Nat) (w : World) (me : Nat) (ops : Lis
       | gc => apply hop; intro e hm; simp at hm; subst hm; rfl
       | it => apply hop; intro e hm; simp at hm; subst hm; rfl
       | err => apply hop; intro e hm; simp at hm; subst hm; rfl
+      | exec => apply hop; intro e hm; simp at hm; subst hm; rfl
 
 theorem puc_inLoop (sc : Scripts) (w : World) : ∀ e ∈ (processUserCommand sc w).2.1, Ev.inLoop e = true := by
   rcases puc_events sc w with h | ⟨u, t, w2, h⟩
